@@ -1,27 +1,117 @@
-//! C10 — not built yet (stub so that the binary links; `./check C10` reports INFRA until replaced).
+//! C10 — function activations and closures do not interfere (re-entrancy).
+//! Differential oracle of C01 on a recursion/closure-dense profile, plus a structural monitor: no
+//! compiler temporary (`V<n>`) may be a free (global) name that is assigned inside a function body.
+use crate::common::*;
 use arbitrary::Unstructured;
-use vcore::{Check, Labels, Plan, Tier, Verdict};
+use syltmodel::gen::{Gen, GenCfg};
+use syltmodel::print::Plan as SurfacePlan;
+use vcore::{Check, Labels, Plan, Stats, Step, Tape, Tier, Verdict};
 
-pub struct Stub;
-pub const CHECK: Stub = Stub;
-pub fn plan(_t: Tier) -> Plan {
-    Plan::new(1, 16)
+pub struct C10;
+pub const CHECK: C10 = C10;
+pub fn plan(t: Tier) -> Plan {
+    Plan::new(t.pick(5_000, 120_000), t.pick(2600, 4000))
 }
-impl Check for Stub {
-    type Case = u8;
+
+pub fn reentrant_cfg(thorough: bool) -> GenCfg {
+    let mut cfg = GenCfg::core(thorough);
+    cfg.reentrant_bias = 3;
+    cfg.scenario_weight = 12;
+    cfg.recursion = true;
+    cfg.fuel = 5;
+    cfg.max_decls = if thorough { 7 } else { 5 };
+    cfg
+}
+
+/// free `V<n>` names assigned inside a nested function of the emitted chunk
+pub fn free_temps_assigned_in_functions(lua: &[u8]) -> Vec<String> {
+    match minilua::load(lua) {
+        Ok(chunk) => minilua::free_global_names(&chunk)
+            .into_iter()
+            .filter(|(n, assigned, in_fn)| {
+                *assigned && *in_fn && n.len() > 1 && n.starts_with('V') && n[1..].chars().all(|c| c.is_ascii_digit())
+            })
+            .map(|(n, _, _)| n)
+            .collect(),
+        Err(_) => Vec::new(),
+    }
+}
+
+impl Check for C10 {
+    type Case = ProgCase;
     fn id(&self) -> &'static str {
         "C10"
     }
-    fn generate(&self, _u: &mut Unstructured, _tier: Tier) -> Option<u8> {
-        None
+    fn generate(&self, u: &mut Unstructured, tier: Tier) -> Option<ProgCase> {
+        let mut t = Tape::new(u);
+        let cfg = reentrant_cfg(tier == Tier::Thorough);
+        let prog = Gen::new(&mut t, cfg).program();
+        let plan = SurfacePlan::default();
+        let source = render(&prog, &plan).text;
+        Some(ProgCase { prog, plan, source })
     }
-    fn evaluate(&self, _case: &u8, _labels: &mut Labels) -> Verdict {
-        Verdict::Discard("stub".into())
+
+    fn evaluate(&self, case: &ProgCase, labels: &mut Labels) -> Verdict {
+        let ev = crate::trace::trace_eval("C10", case, labels, false);
+        if let Some(lua) = &ev.lua {
+            let free = free_temps_assigned_in_functions(lua);
+            if !free.is_empty() {
+                labels.add("free-temp-global");
+                // classification only: e.g. the temporary of a plain assignment (`V9 = e; x = V9`) is a global
+                // that is never live across a call, which the property does not forbid
+            }
+        }
+        match (ev.verdict, ev.reference) {
+            (Verdict::Pass { .. }, Some(r)) => {
+                if r.held_across_reentry > 0 {
+                    labels.add("held-across-reentry");
+                }
+                if r.escaped_closure_calls > 0 {
+                    labels.add("closure-outlives-creator");
+                }
+                Verdict::Pass { nontrivial: r.held_across_reentry > 0 || r.escaped_closure_calls > 0 }
+            }
+            (v, _) => v,
+        }
+    }
+
+    fn simplify_at(&self, case: &ProgCase, idx: usize) -> Step<ProgCase> {
+        shrink_step(case, idx)
+    }
+    fn sample(&self, case: &ProgCase) -> serde_json::Value {
+        sample_of(case)
     }
     fn rule(&self) -> String {
-        "stub".into()
+        "cases: random well-typed programs from the re-entrancy profile (fuel-bounded self recursion of global and local \
+         functions whose result expression holds an if-/case-/operand value across the recursive call, closures created per \
+         loop iteration and called after the loop, sibling closures sharing a captured variable, closure factories, case \
+         bindings captured by closures); oracle: trace of the reference interpreter (fresh cells per activation/iteration, \
+         capture by reference) == trace of mini-Lua on the emitted chunk, free (global) compiler temporaries assigned inside functions are counted as a \
+         label; non-trivial = in the reference run a value was held in a compound expression while a \
+         re-entrant call of the same function ran, or a closure was called after the activation that created it had ended"
+            .into()
     }
-    fn health(&self, _s: &vcore::Stats) -> Result<(), String> {
-        Err("check not built yet".into())
+    fn assumptions(&self) -> Vec<String> {
+        vec![
+            "mini-Lua agrees with Lua 5.3 on the subset used (./check selftest)".into(),
+            "interleavings are those induced by sequential evaluation (Sylt has no threads)".into(),
+        ]
+    }
+    fn health(&self, s: &Stats) -> Result<(), String> {
+        if s.evaluations < 200 {
+            return Ok(());
+        }
+        if (s.label("accepted") as f64) < 0.5 * s.evaluations as f64 {
+            return Err("fewer than half of the generated programs compile".into());
+        }
+        if s.label("held-across-reentry") * 20 < s.evaluations || s.label("closure-outlives-creator") * 20 < s.evaluations {
+            return Err(format!(
+                "interesting classes are rare: held-across-reentry={} closure-outlives-creator={} of {}",
+                s.label("held-across-reentry"),
+                s.label("closure-outlives-creator"),
+                s.evaluations
+            ));
+        }
+        Ok(())
     }
 }
